@@ -583,6 +583,82 @@ theorem dec_tok (l T out l'' B X : List UInt8) (ht : tokSpec l = some (T, out, l
       simp only [List.cons_append, List.nil_append]
       rw [decodeString_plain F x B hx']
 
+theorem uSpec_some (t T out l2 : List UInt8) (h : uSpec t = some (T, out, l2)) :
+    ∃ a b c d rest, t = a :: b :: c :: d :: rest ∧ isHex a = true ∧ isHex b = true ∧ isHex c = true ∧ isHex d = true ∧
+      T = 92 :: 117 :: a :: b :: c :: d :: rest.take ((uniStep a b c d rest).2 - 6) ∧ out = (uniStep a b c d rest).1 ∧
+      l2 = rest.drop ((uniStep a b c d rest).2 - 6) := by
+  simp only [uSpec] at h
+  split at h
+  · next a b c d rest =>
+    split at h
+    · next hx =>
+      simp only [Bool.and_eq_true] at hx
+      injection h with h; injection h with h1 h; injection h with h2 h3
+      exact ⟨a, b, c, d, rest, rfl, hx.1.1.1, hx.1.1.2, hx.1.2, hx.2, h1.symm, h2.symm, h3.symm⟩
+    · cases h
+  · cases h
+
+/-- the first token of a body that is followed by its closing quote lies inside the body -/
+theorem tok_snoc (x : UInt8) (l' X T out l2 : List UInt8) (ht : tokSpec (x :: (l' ++ 34 :: X)) = some (T, out, l2))
+    (hs : scanStringBody l2 = some X) :
+    ∃ B, l2 = B ++ 34 :: X ∧ tokSpec (x :: l') = some (T, out, B) := by
+  simp only [tokSpec] at ht ⊢
+  by_cases hx : (x == 92) = true
+  · simp only [hx, if_true] at ht ⊢
+    cases l' with
+    | nil =>
+      -- `\"`: the quote would be escaped, and nothing closes the string
+      simp only [List.nil_append] at ht
+      have h1 : ((34 : UInt8) == 117) = false := by decide
+      have h2 : isSimpleEscape 34 = true := by decide
+      simp only [h1, Bool.false_eq_true, if_false, h2, if_true] at ht
+      injection ht with ht; injection ht with _ ht; injection ht with _ hl2
+      subst hl2
+      have := scanStringBody_length_lt _ _ hs
+      omega
+    | cons e t2 =>
+      simp only [List.cons_append] at ht ⊢
+      by_cases he : (e == 117) = true
+      · simp only [he, if_true] at ht ⊢
+        -- the four hex digits cannot reach the quote
+        obtain ⟨a, b, c, d, rest, ht2, ha, hb, hc, hd, hT, hout, hl2⟩ := uSpec_some _ _ _ _ ht
+        match t2, ht2 with
+        | [], ht2 => injection ht2 with h1 _; subst h1; simp [not_hex_34] at ha
+        | [_], ht2 => injection ht2 with _ ht2; injection ht2 with h1 _; subst h1; simp [not_hex_34] at hb
+        | [_, _], ht2 =>
+          injection ht2 with _ ht2; injection ht2 with _ ht2; injection ht2 with h1 _; subst h1; simp [not_hex_34] at hc
+        | [_, _, _], ht2 =>
+          injection ht2 with _ ht2; injection ht2 with _ ht2; injection ht2 with _ ht2; injection ht2 with h1 _
+          subst h1; simp [not_hex_34] at hd
+        | a' :: b' :: c' :: d' :: restL, ht2 =>
+          injection ht2 with h1 ht2; injection ht2 with h2 ht2; injection ht2 with h3 ht2; injection ht2 with h4 hrest
+          subst h1 h2 h3 h4
+          have hrest' : rest = restL ++ 34 :: X := hrest.symm
+          subst hrest'
+          have hcg := uniStep_congr a' b' c' d' _ _ (getu4L_append_quote restL X)
+          rw [hcg] at hT hout hl2
+          simp only [uSpec, ha, hb, hc, hd, Bool.and_self, if_true]
+          rcases uniStep_consumed a' b' c' d' restL with h6 | ⟨h12, v, hv⟩
+          · rw [h6] at hT hl2 ⊢
+            simp only [Nat.sub_self, List.take_zero, List.drop_zero] at hT hl2 ⊢
+            exact ⟨restL, hl2, by rw [hT, hout]⟩
+          · obtain ⟨a2, b2, c2, d2, rest5, hr5, _, _, _, _⟩ := getu4L_some restL v hv
+            rw [h12, hr5] at hT hl2 ⊢
+            refine ⟨rest5, by rw [hl2]; simp, ?_⟩
+            rw [hT, hout]
+            simp [hr5]
+      · simp only [he, Bool.false_eq_true, if_false] at ht ⊢
+        split at ht
+        · next hse =>
+          injection ht with ht; injection ht with hT ht; injection ht with hout hl2
+          simp only [hse, if_true]
+          exact ⟨t2, hl2.symm, by rw [hT, hout]⟩
+        · cases ht
+  · simp only [hx, Bool.false_eq_true, if_false] at ht ⊢
+    injection ht with ht; injection ht with hT ht; injection ht with hout hl2
+    subst hT; subst hout
+    exact ⟨l', hl2.symm, rfl⟩
+
 theorem append_eof (pend : Option UInt8) : (smachine .append).eof (stOf pend) = [.errReturn .invalidString] := by
   cases pend <;> rfl
 
@@ -683,5 +759,91 @@ theorem append_run {τ} (data : Bytes) (hsm : Small data) (h : Handler τ) :
                   (r2.dst ++ (pendL pend2).toArray) ++ (decodeString F body2).toArray := by simp
               rw [this, hdst2]
               simp
+
+/-- a string body that is followed by its closing quote -/
+def WFBody (l : List UInt8) : Prop := ∃ X, scanStringBody (l ++ 34 :: X) = some X
+
+/-- **the `unescapeStringContent` machine on the bytes between the quotes of a well-formed string**: all of them are
+    consumed and the result is `Spec.decodeString` -/
+theorem unescape_run {τ} (data : Bytes) (hsm : Small data) (h : Handler τ) :
+    ∀ (n : Nat) (l : List UInt8), l.length ≤ n → ∀ (pend : Option UInt8) (fuel p : Nat) (r : Regs τ), At data p l → r.p = p →
+      l.length + 1 ≤ fuel → PendOK data r pend → r.err = none → WFBody l →
+      (contL (smachine .unescape) data h fuel (stOf pend) [] r).kind = .ok ∧
+      (contL (smachine .unescape) data h fuel (stOf pend) [] r).p = (data.size : Int) ∧
+      ∀ F, l.length + 1 ≤ F →
+        (contL (smachine .unescape) data h fuel (stOf pend) [] r).dst = r.dst ++ (pendL pend ++ decodeString F l).toArray := by
+  intro n
+  induction n with
+  | zero =>
+    intro l hl pend fuel p r hat hp hf hpk herr _
+    have : l = [] := List.length_eq_zero_iff.mp (by omega)
+    subst this
+    have hpe := hat.nil_inv
+    rw [contL_nil (smachine .unescape) data h _ _ _ r p hp hat]
+    cases pend with
+    | none =>
+      refine ⟨by simp [smachine, seof, stOf, runEof, Regs.finish, herr], by simp [smachine, seof, stOf, runEof, Regs.finish, hp, hpe], ?_⟩
+      intro F _
+      simp [smachine, seof, stOf, runEof, Regs.finish, pendL, decodeString_nil]
+    | some x =>
+      simp only [PendOK] at hpk
+      have hx : execSimple data (smachine .unescape).hasField h .appendSeg r = .cont { r with dst := r.dst ++ #[x] } := by
+        simp only [execSimple, hpk]
+      have he : (smachine .unescape).eof (stOf (some x)) = [.appendSeg] := rfl
+      rw [he]
+      simp only [runEof, hx]
+      refine ⟨by simp [Regs.finish, herr], by simp [Regs.finish, hp, hpe], ?_⟩
+      intro F _
+      simp [Regs.finish, pendL, decodeString_nil]
+  | succ n ih =>
+    intro l hl pend fuel p r hat hp hf hpk herr hwf
+    cases l with
+    | nil => exact ih [] (by simp) pend fuel p r hat hp hf hpk herr hwf
+    | cons x l' =>
+      obtain ⟨X, hX⟩ := hwf
+      simp only [List.cons_append] at hX
+      simp only [List.length_cons] at hl hf
+      have h34 : x ≠ 34 := by
+        intro hh; subst hh
+        simp only [scanStringBody] at hX
+        injection hX with hX
+        have := congrArg List.length hX
+        simp at this
+        omega
+      have hc : ¬ x < 32 := by
+        intro hc
+        have h92 : x ≠ 92 := by intro hh; subst hh; exact absurd hc (by decide)
+        rw [scanStringBody_plain x _ h34 h92] at hX
+        simp [hc] at hX
+      rw [scan_tok (x :: (l' ++ 34 :: X)) x _ rfl h34 hc] at hX
+      cases hts : tokSpec (x :: (l' ++ 34 :: X)) with
+      | none => rw [hts] at hX; cases hX
+      | some tr =>
+        obtain ⟨T, out, l2⟩ := tr
+        rw [hts] at hX
+        simp only [] at hX
+        obtain ⟨B, hl2, htb⟩ := tok_snoc x l' X T out l2 hts hX
+        have key := tok_run .unescape data h hsm x l' h34 hc pend fuel p r hat hp (by simp only [List.length_cons]; omega) hpk
+        rw [htb] at key
+        simp only [] at key
+        obtain ⟨f2, pend2, r2, hf2, hat2, hp2, hpk2, herr2, hdst2, he2⟩ := key
+        obtain ⟨hsplit, hTne⟩ := tokSpec_split _ _ _ _ htb
+        have hTlen : 0 < T.length := List.length_pos_iff.mpr hTne
+        have hlB : B.length ≤ n := by
+          have := congrArg List.length hsplit
+          simp only [List.length_cons, List.length_append] at this
+          omega
+        have ih2 := ih B hlB pend2 f2 (p + T.length) r2 hat2 hp2 hf2 hpk2 (by rw [herr2]; exact herr) ⟨X, by rw [← hl2]; exact hX⟩
+        rw [he2]
+        obtain ⟨hk, hpp, hd⟩ := ih2
+        refine ⟨hk, hpp, ?_⟩
+        intro F hF
+        obtain ⟨F, rfl⟩ : ∃ f, F = f + 1 := ⟨F - 1, by simp only [List.length_cons] at hF; omega⟩
+        have hlen : (x :: l').length = T.length + B.length := by rw [hsplit]; simp
+        rw [hd F (by simp only [List.length_cons] at hF hlen; omega), hsplit, dec_tok _ _ _ _ B X hts hl2 F]
+        have : r2.dst ++ (pendL pend2 ++ decodeString F B).toArray =
+            (r2.dst ++ (pendL pend2).toArray) ++ (decodeString F B).toArray := by simp
+        rw [this, hdst2]
+        simp
 
 end RJson.StrMachine
